@@ -45,6 +45,11 @@ def bases():
                 'transfers': [{'kind': 'download', 'dst': 'path', 'size': 20, 'preexisting': True, 'name_len': 255}]})
     out.append({'front_end': 'legacy', 'config': dict(lcfg), 'dirwatch': True,
                 'transfers': [{'kind': 'download', 'dst': 'path', 'size': 20, 'preexisting': True, 'name_len': 246}]})
+    # the destination name is an existing non-empty directory (the request succeeds, publishing cannot): all three front-ends
+    out.append({'config': dict(cfg), 'dirwatch': True, 'transfers': [{'kind': 'download', 'dst': 'path', 'size': 20, 'dst_is_dir': True}]})
+    out.append({'config': dict(cfg), 'dirwatch': True, 'transfers': [{'kind': 'download', 'dst': 'path', 'size': 10, 'dst_is_dir': True}]})
+    out.append({'front_end': 'legacy', 'config': dict(lcfg), 'dirwatch': True, 'transfers': [{'kind': 'download', 'dst': 'path', 'size': 20, 'dst_is_dir': True}]})
+    out.append({'front_end': 'procpool', 'config': dict(pcfg), 'dirwatch': True, 'transfers': [{'kind': 'download', 'dst': 'path', 'size': 20, 'dst_is_dir': True}]})
     return out
 
 
